@@ -82,6 +82,7 @@ func RunC14(tier string) int {
 			run.Infra(err.Error())
 			return
 		}
+		env.MaybeTTY(run, fmt.Sprint(i), 5)
 		keep := false
 		defer func() {
 			if !keep {
@@ -214,6 +215,7 @@ func RunC14(tier string) int {
 			run.Infra(err.Error())
 			return
 		}
+		env.MaybeTTY(run, fmt.Sprint(i), 5)
 		defer env.Cleanup()
 		hookLog := env.EnableHookLog()
 		cfg := BuildCfg{EnableCache: true, Minimal: true}
